@@ -91,14 +91,37 @@ func vfMismatchedReceivers(c *vfSerCase) (out []*vfSerState, desc []string) {
 		if c.Vec.Metric != string(L2Squared) {
 			add(func(cc *vfSerCase) { cc.Vec.Metric = string(L2Squared) }, "metric l2_squared")
 		}
+		if c.Vec.Dim > 1 {
+			add(func(cc *vfSerCase) {
+				cc.Vec.Dim--
+				if cc.Vec.M > 0 && cc.Vec.Dim%cc.Vec.M != 0 {
+					cc.Vec.M = 1
+				}
+			}, "dimension-1")
+		}
 		switch c.Kind {
 		case "hnsw":
+			if c.Vec.M > 2 {
+				add(func(cc *vfSerCase) { cc.Vec.M-- }, "M-1")
+			}
+			if c.Vec.EfC > 1 {
+				add(func(cc *vfSerCase) { cc.Vec.EfC-- }, "efConstruction-1")
+			}
+			if c.Vec.EfS > 1 {
+				add(func(cc *vfSerCase) { cc.Vec.EfS-- }, "efSearch-1")
+			}
 			add(func(cc *vfSerCase) { cc.Vec.M++ }, "M+1")
 			add(func(cc *vfSerCase) { cc.Vec.EfC++ }, "efConstruction+1")
 			add(func(cc *vfSerCase) { cc.Vec.EfS++ }, "efSearch+1")
 		case "ivf":
 			add(func(cc *vfSerCase) { cc.Vec.NList++ }, "nlist+1")
+			if c.Vec.NList > 1 {
+				add(func(cc *vfSerCase) { cc.Vec.NList-- }, "nlist-1")
+			}
 		case "pq":
+			if c.Vec.NBits > 1 {
+				add(func(cc *vfSerCase) { cc.Vec.NBits-- }, "nbits-1")
+			}
 			if c.Vec.NBits < 8 {
 				add(func(cc *vfSerCase) { cc.Vec.NBits++ }, "nbits+1")
 			}
@@ -109,6 +132,12 @@ func vfMismatchedReceivers(c *vfSerCase) (out []*vfSerState, desc []string) {
 			}
 		case "ivfpq":
 			add(func(cc *vfSerCase) { cc.Vec.NList++ }, "nlist+1")
+			if c.Vec.NList > 1 {
+				add(func(cc *vfSerCase) { cc.Vec.NList-- }, "nlist-1")
+			}
+			if c.Vec.NBits > 1 {
+				add(func(cc *vfSerCase) { cc.Vec.NBits-- }, "nbits-1")
+			}
 			if c.Vec.NBits < 8 {
 				add(func(cc *vfSerCase) { cc.Vec.NBits++ }, "nbits+1")
 			}
